@@ -17,6 +17,7 @@
 //   N<o>:<hex>  ST::string(ptr,len,assume_valid)     D<o> default ctor          C<o>,<s> copy ctor     M<o>,<s> move ctor
 //   X<o> dtor   c<o>,<s> copy assign (s may be o)    m<o>,<s> move assign       R<o> clear()
 //   P<o>,<s> o += s (s may be o)   p<o>,<s> o += s.c_str()   a<o>,<cp> o += char32_t(cp)   e<o>,<cp> o += char(cp)
+//   w<o>,<k>,<n>,<mode> o.set(o.c_str()+k, n, mode) (source inside the destination)   Y<o> o = o.c_str()
 //   S<o>,<mode>:<hex> o.set(ptr,len,mode)   T<o>,<mode>,<w>:<hex> o.set(utf16/utf32 buffer, mode)   E<o>,<mode>,<w>:<hex> o = ST::string(utf16/32 ptr,len,mode)
 //   U8:<hex> construct the char_buffer in slot 8     b<o>,<mode> o.set(std::move(slot8), mode)   B<o>,<mode> o.set(slot8, mode) (lvalue)
 //   h<o> o = std::move(slot8)   H<o> o = slot8   G<o>,<mode> ST::string(std::move(slot8), mode) into dead slot o   g<o>,<mode> ST::string(slot8, mode)
@@ -244,6 +245,10 @@ static void apply(SPool &P, const std::string &op) {
             if (c == 'T') { ST::utf32_buffer ub(v.data(), us.size()); arm_now(); P.str(o).set(ub, mode_of(f[1][0])); }
             else { arm_now(); P.str(o) = ST::string(v.data(), us.size(), mode_of(f[1][0])); } }
         break; }
+    case 'w': { // o.set(o.c_str() + k, n, mode): the source bytes live inside the destination
+        size_t k = (size_t)num(1), n = (size_t)num(2), sz = P.str(o).size(); if (k > sz) k = sz; if (n > sz - k) n = sz - k;
+        arm_now(); P.str(o).set(P.str(o).c_str() + k, n, mode_of(f.size() > 3 ? f[3][0] : 'c')); break; }
+    case 'Y': arm_now(); P.str(o) = P.str(o).c_str(); break;      // operator=(const char*) from its own bytes
     case 'U': { std::string b = parse_bytes(tail); arm_now(); new (P.raw[BUFSLOT]) B(b.data(), b.size()); P.live[BUFSLOT] = true; break; }
     case 'b': arm_now(); P.str(o).set(std::move(P.buf(BUFSLOT)), mode_of(f[1][0])); break;
     case 'B': arm_now(); P.str(o).set(static_cast<const B &>(P.buf(BUFSLOT)), mode_of(f[1][0])); break;
@@ -281,7 +286,7 @@ static bool precheck(SPool &P, const std::string &op) {
     case 'X': return alive(o, NOBJ);
     case 'c': case 'P': case 'p': return alive(o) && alive(s);
     case 'm': return alive(o) && alive(s) && o != s;
-    case 'R': case 'a': case 'e': case 'S': case 'T': case 'E': return alive(o);
+    case 'R': case 'a': case 'e': case 'S': case 'T': case 'E': case 'w': case 'Y': return alive(o);
     case 'U': return o == BUFSLOT && !P.live[BUFSLOT];
     case 'b': case 'B': case 'h': case 'H': return alive(o) && P.live[BUFSLOT];
     case 'G': case 'g': return dead(o) && P.live[BUFSLOT];
@@ -420,7 +425,8 @@ static std::string rand_op(Rng &rng, G &g, bool with_throwing) {
         case 10: if (o < 0 || s < 0) continue; return "p" + S(o) + "," + S(s);
         case 11: if (o < 0) continue; { static const long cps[] = {0x41, 0xE9, 0x20AC, 0x1F600, 0x10FFFF, 0xD800}; return "a" + S(o) + "," + S(cps[rng.below(6)]); }
         case 12: if (o < 0) continue; return "e" + S(o) + "," + S(0x21 + rng.below(0x5E));
-        case 13: if (o < 0) continue; return "S" + S(o) + "," + std::string(1, "csa"[rng.below(3)]) + ":" + hex_bytes(rand_text(rng, pick_len(rng)));
+        case 13: if (o < 0) continue; if (rng.chance(1, 3)) { if (rng.chance(1, 3)) return "Y" + S(o); return "w" + S(o) + "," + S(rng.below(20)) + "," + S(rng.below(60)) + "," + std::string(1, "csa"[rng.below(3)]); }
+                 return "S" + S(o) + "," + std::string(1, "csa"[rng.below(3)]) + ":" + hex_bytes(rand_text(rng, pick_len(rng)));
         case 14: case 15: if (d < 0 || s < 0) continue; g.live[d] = true; return "K" + S(d) + "," + S(s) + "," + KOPS1[rng.below(sizeof KOPS1 / sizeof *KOPS1)];
         case 16: if (d < 0 || s < 0 || o < 0) continue; g.live[d] = true; return "K" + S(d) + "," + S(s) + "," + KOPSX[rng.below(sizeof KOPSX / sizeof *KOPSX)] + "," + S(o);
         case 17: if (d < 0 || s < 0 || o < 0) continue; { int y = g.pick_live(rng); g.live[d] = true; return "K" + S(d) + "," + S(s) + "," + KOPSXY[rng.below(3)] + "," + S(o) + "," + S(y); }
@@ -539,7 +545,7 @@ static void gen(Emitter &em, const Options &opt) {
             }
             // mutators incl. self-referential ones
             const char *muts[] = {"c0,0", "P0,0", "P0,1", "p0,0", "c0,1;R1", "m0,1;N3:6161", "C3,0;R0", "C3,0;X3", "M3,0;P0,1", "M3,0;X0", "K3,0,repl,0,0;c0,3", "a0,233", "a0,128512", "e0,65",
-                                  "S0,c:c3a9", "S0,s:ff", "C3,0;C4,3;X3;P4,0", "K3,0,whole;c0,3;X3", "K3,0,plus,0;m0,3"};
+                                  "S0,c:c3a9", "S0,s:ff", "w0,0,200,c", "w0,1,3,c", "w0,0,15,a", "w0,2,200,s", "Y0", "w0,0,0,c", "Y0;P0,1", "w0,1,200,c;c1,0", "C3,0;C4,3;X3;P4,0", "K3,0,whole;c0,3;X3", "K3,0,plus,0;m0,3"};
             for (const char *m : muts) if (in_slice()) em.emit("shist ops=" + pro + ";" + m);
         }
     }
